@@ -18,7 +18,7 @@ from fractions import Fraction
 
 from .. import core
 
-KIND = {1: 'n', 2: 'x', 3: 't1', 4: 't2', 5: 't3', 6: 'e', 7: 't0'}
+KIND = {1: 'n', 2: 'x', 3: 't1', 4: 't2', 5: 't3', 6: 'e', 7: 't0', 8: 'u'}
 TEMPO = {'t0': 500000, 't1': 1, 't2': 16777215, 't3': 250000}
 START = 7
 
@@ -36,6 +36,8 @@ def mk(kind, dt, ident):
         return mido.MetaMessage('marker', text=str(ident), time=dt)
     if kind == 'e':
         return mido.MetaMessage('end_of_track', time=dt)
+    if kind == 'u':
+        return mido.UnknownMetaMessage(0x60, data=(ident % 128, ident // 128), time=dt)
     return mido.MetaMessage('set_tempo', tempo=TEMPO[kind], time=dt)
 
 
@@ -46,6 +48,8 @@ def ident_of(m):
         return m.channel * 10 + m.note
     if m.type == 'marker':
         return int(m.text)
+    if m.type == 'unknown_meta':
+        return m.data[0] + 128 * m.data[1]
     return None      # set_tempo: identified by position only
 
 
@@ -87,9 +91,9 @@ def build(tracks, tpb, ftype=1):
 
 
 class FakeTime:
-    def __init__(self, scale):
+    def __init__(self, scale, origin=START):
         self.scale = scale        # Fraction: seconds per unit
-        self.now = Fraction(START) * scale
+        self.now = Fraction(origin) * scale
         self.sleeps = []
 
     def time(self):
@@ -125,12 +129,15 @@ def check_iter(tracks, it, tpb):
     return None
 
 
-def check_play(tracks, it, play, tpb):
+def check_play(tracks, it, play, tpb, origin=START):
+    """origin: what the supplied clock reads when play() starts (the model uses
+    START; any other origin only shifts the expected yield times)."""
     import mido.midifiles.midifiles as mm
     meta, delays, sleeps, yields = play
+    yields = [(i, c - START + origin) for i, c in yields]
     mid = build(tracks, tpb)
     unit = Fraction(1, 10 ** 6 * tpb)
-    ft = FakeTime(unit)
+    ft = FakeTime(unit, origin)
     saved = mm.time
     mm.time = ft
     try:
@@ -184,7 +191,8 @@ def worker(lines):
         tpb = _TPBS[sum(ints) % 3]
         r = check_iter(tracks, it, tpb)
         if r is None and play is not None:
-            r = check_play(tracks, it, play, tpb)
+            # the supplied clock may start anywhere, also at exactly zero
+            r = check_play(tracks, it, play, tpb, origin=[START, 0, 10 ** 9][sum(ints) % 3])
         if r and len(res['viol']) < 10:
             res['viol'].append(('playback/' + r[0], {'tracks': tracks, 'it': it, 'play': play, 'tpb': tpb},
                                 r[1] + ' for tracks %r' % (tracks,)))
@@ -255,12 +263,12 @@ CHECK_DEADLOCK FALSE
     allk = '{"n", "t0", "t1", "t2", "t3", "x", "e"}'
     if thorough:
         plans = [(2, 2, '{0, 1, 3}', allk, False), (1, 4, '{0, 1, 3}', '{"n", "t0", "t1", "t2", "e"}', False),
-                 (1, 3, '{0, 1, 3}', '{"n", "t1", "t2", "x", "e"}', True), (2, 2, '{0, 3}', '{"n", "t2", "x"}', True)]
+                 (1, 3, '{0, 1, 3}', '{"n", "t1", "t2", "x", "u", "e"}', True), (2, 2, '{0, 3}', '{"n", "t2", "x", "u"}', True)]
     else:
         plans = [(2, 2, '{0, 1, 3}', '{"n", "t0", "t2", "e"}', False),
                  (1, 3, '{1, 3}', '{"n", "t0", "t1"}', False),
                  (1, 2, '{0, 1, 3}', allk, True),
-                 (2, 1, '{0, 3}', '{"n", "t2", "x"}', True),
+                 (2, 1, '{0, 3}', '{"n", "t2", "x", "u"}', True),
                  (1, 3, '{0, 1, 3}', '{"n"}', True)]        # three yields: drift after a slow consumer
     for mt, me, dl, kinds, play in plans:
         pr = core.ParallelReplay(ctx, worker, batch_size=1000, initializer=_init, initargs=(play,))
